@@ -419,6 +419,7 @@ type GenOpts struct {
 	P4          []string
 	P5          []string
 	P3Noop      int // per cent of the cases laid out with OrderingNoop
+	Decimal     int // per cent of the cases whose sizes and spacings are multiples of 0.1 (not dyadic: float rounding)
 	AdvIDs      int // per cent of the cases whose node names come from the adversarial pools (C08: names are opaque)
 	SizeModes   []string
 	VirtualOut  []bool
@@ -447,6 +448,9 @@ func genCase(r *Rng, o GenOpts) Case {
 	grain = 8.0
 	if r.Bool(25) {
 		grain = 0.25
+	}
+	if o.Decimal > 0 && r.Bool(o.Decimal) {
+		grain = 0.1 // sums of such sizes are rounded: only for oracles that do not compare with exact arithmetic
 	}
 	defer func() { grain = 8.0 }()
 	kind := o.Kinds[r.Intn(len(o.Kinds))]
